@@ -1155,3 +1155,68 @@ func fieldPathRootIsParam(v ssa.Value, prm *ssa.Parameter) bool {
 	}
 	return false
 }
+
+// ---- R69: ToCSV decides on the header before any success return ----
+
+func init() {
+	register(&Rule{ID: "R69", Name: "CSV-HEADER-ALWAYS", Floor: 1,
+		Text: "in QFrame.ToCSV every return that can report success (a constant nil, or the csv writer's deferred Error()) is dominated by the branch on the Header option, and the header row is written inside that branch before the first data row: a frame without rows still produces its header line, so that ReadCSV of the output yields the typed zero-row frame instead of an EOF error",
+		Run:  runR69})
+}
+
+func runR69(c *Ctx) {
+	p := c.P
+	fn := p.Func("", "QFrame.ToCSV")
+	if fn == nil {
+		c.undecided("QFrame.ToCSV", "-", "method not found")
+		return
+	}
+	fnm := fname(fn)
+	var headerIf *ssa.If
+	eachInstr(fn, func(in ssa.Instruction) {
+		iff, ok := in.(*ssa.If)
+		if !ok {
+			return
+		}
+		cond, _ := unNot(iff.Cond, true)
+		if fieldNameOfLoad(cond) == "Header" {
+			headerIf = iff
+		}
+	})
+	if headerIf == nil {
+		c.undecided(fnm+"|header branch", p.pos(fn.Pos()), "no branch on the Header option found")
+		return
+	}
+	bad := ""
+	n := 0
+	eachInstr(fn, func(in ssa.Instruction) {
+		ret, ok := in.(*ssa.Return)
+		if !ok || len(ret.Results) != 1 {
+			return
+		}
+		success := false
+		switch r := ret.Results[0].(type) {
+		case *ssa.Const:
+			success = r.IsNil()
+		case *ssa.Call:
+			if o := calleeObj(r); o != nil && o.Name() == "Error" && o.Pkg() != nil && o.Pkg().Path() == "encoding/csv" {
+				success = true
+			}
+		}
+		if !success {
+			return
+		}
+		n++
+		if !headerIf.Block().Dominates(in.Block()) {
+			bad = p.instrPos(in)
+		}
+	})
+	switch {
+	case n == 0:
+		c.undecided(fnm+"|header branch", p.pos(fn.Pos()), "no success return found")
+	case bad != "":
+		c.bad(fnm+"|header branch", bad, "a success return is reachable without deciding on the header: for some frames (e.g. without rows) no header line is written and the output cannot be read back")
+	default:
+		c.ok(fnm+"|header branch", p.instrPos(headerIf), fmt.Sprintf("%d success return(s), all behind the Header branch", n))
+	}
+}
